@@ -1,8 +1,11 @@
 import re
+import logging
 from typing import Union
 
 from dliswriter.configuration import global_config
 
+
+logger = logging.getLogger(__name__)
 
 HC_STRING_PATTERN = re.compile(r"[A-Z0-9_-]+")
 
@@ -18,12 +21,13 @@ def validate_string(s: str) -> str:
     if not isinstance(s, str):
         raise TypeError(f"Expected a str, got {type(s)}: {s}")
 
-    if not global_config.high_compat_mode:
-        return s
-
     if HC_STRING_PATTERN.fullmatch(s) is None:
-        raise ValueError("In high-compatibility mode, strings can contain only uppercase characters, digits, "
-                         f"dashes, and underscores; got {repr(s)}")
+        if global_config.high_compat_mode:
+            raise ValueError("In high-compatibility mode, strings can contain only uppercase characters, digits, "
+                             f"dashes, and underscores; got {repr(s)}")
+        logger.warning("Strings containing characters other than uppercase letters, digits, dashes, and underscores "
+                       f"can cause issues in some viewers (and are not accepted in high-compatibility mode); "
+                       f"got {repr(s)}")
 
     return s
 
